@@ -194,7 +194,7 @@ PROPS = {
                       "are not decided (an attempt with the same technique exceeded the solver's resource limit and was withdrawn; bounded native enumeration only). Not under contract: iter_padded's Take<BitIter<..>> adaptor, the Word/uN constructors. Assumed: Arc<[u8]>/Box/Vec conversions (R8 helpers), TMR injectivity, BitIter contracts imported from unit bitstream.",
         "assumptions": [
             "Arc<[u8]> / Box<[u8]> / Vec<u8> conversions preserve the byte sequence (R8 helpers)",
-            "type widths below 2^60 bits (no saturation)",
+            "type widths below 2^60 bits (no saturation) for the functional clauses; from_padded_bits is proved panic- and overflow-free for every width",
         ],
         "not_decided": ["prune: tags/leaf data preserved, two-step = one-step (only typing/totality proved)", "iter_padded adaptor"],
         "explanation": "",
@@ -359,9 +359,12 @@ PROPS = {
         "explanation": "",
     },
     "C02": {
-        "units": ["decode", "bitstream"],
-        # the bit-level readers every decoder contract rests on (proved in unit bitstream, shared with C13)
-        "functions": {"bitstream": ["BitIter::next", "BitIter::read_bit", "BitIter::read_u2", "BitIter::read_u8", "BitIter::read_natural", "BitIter::close"]},
+        "units": ["decode", "bitstream", "value"],
+        "parallel_units": True,
+        # the bit-level readers every decoder contract rests on (proved in unit bitstream, shared with C13), and the value
+        # decoders RedeemNode::decode reads its witnesses with (unit value: total for EVERY type width, saturated ones included)
+        "functions": {"bitstream": ["BitIter::next", "BitIter::read_bit", "BitIter::read_u2", "BitIter::read_u8", "BitIter::read_natural", "BitIter::close"],
+                      "value": ["Value::from_padded_bits", "Value::from_compact_bits", "DecodeFinalizer::convert_witness"]},
         "native_cex": "c02_codec_replay",
         "native_thorough": "c02_codec_replay",
         "native_fallback": "c02_codec_replay",
